@@ -223,6 +223,34 @@ var malCases = []malCase{
 		}
 		return malCall{fn: fnOf([]reflect.Type{t}, nil)}
 	}},
+	{"invoke", "unexported-embedded-In", func(m *Mal) malCall {
+		// an embedded parameter object whose type name is unexported, with
+		// and without ignore-unexported on the outer object
+		inner, err := inObj(m0T, "")
+		if err != nil {
+			return malCall{fn: errMalUnbuildable}
+		}
+		tags := []string{`ignore-unexported:"true"`, "", `ignore-unexported:"false"`}
+		t, err := structOf(inType, true, tags[pick(m, len(tags))],
+			reflect.StructField{Name: "hiddenIn", PkgPath: "digsim", Type: inner, Anonymous: true})
+		if err != nil {
+			return malCall{fn: errMalUnbuildable}
+		}
+		return malCall{fn: fnOf([]reflect.Type{t}, nil)}
+	}},
+	{"provide", "unexported-embedded-In", func(m *Mal) malCall {
+		inner, err := inObj(m0T, "")
+		if err != nil {
+			return malCall{fn: errMalUnbuildable}
+		}
+		tags := []string{`ignore-unexported:"true"`, "", `ignore-unexported:"false"`}
+		t, err := structOf(inType, true, tags[pick(m, len(tags))],
+			reflect.StructField{Name: "hiddenIn", PkgPath: "digsim", Type: inner, Anonymous: true})
+		if err != nil {
+			return malCall{fn: errMalUnbuildable}
+		}
+		return malCall{fn: fnOf([]reflect.Type{t}, []reflect.Type{reflect.TypeOf((*M2)(nil))})}
+	}},
 	{"provide", "unexported-out-field", func(m *Mal) malCall {
 		hf := reflect.StructField{Name: "hidden", PkgPath: "digsim", Type: m1T}
 		switch (m.Arg / 8) % 4 {
